@@ -17,7 +17,7 @@ func main() {
 	o := hx.ParseFlags("C04")
 	res := hx.NewResult(o, "c04: disturbance histories on real SQLite + litestream")
 	res.Rule = "seeded histories of 1-3 rounds of {app activity with syncs; a disturbance: clean stop + app activity (writes, any checkpoint mode, closing the last connection, VACUUM) + start as new DB object | start of the same DB object | crash | database file replaced by an older copy | meta directory removed | run-time ResetLocalState}; then SyncAndWait and Replica.Sync; non-trivial = at least one acknowledged instant after a disturbance checked by page-image comparison; distinct = canonical history text"
-	or := histlib.Oracles{AckRestore: true, NoStall: true, Classify: classify, TraceVerify: true}
+	or := histlib.Oracles{AckRestore: true, NoStall: true, FinalSyncOK: true, Classify: classify, TraceVerify: true}
 	drv, err := hx.StartDriver(o.Driver)
 	if err != nil {
 		hx.Fatal(err)
